@@ -19,7 +19,7 @@ EXPLANATION = (
     "only where the order facts give day_submerged <= LagAer (strict guard before the integer increment), so it is >= 0. C04.e: the net-irrigation refill raises (or lowers) each compartment towards the threshold of its own layer - "
     "the per-layer threshold is recomputed from the compartment's own wilting point / field capacity at every layer change and the "
     "root-zone-average threshold computed before the loop cannot reach the refill (reaching definitions + the layer-change idiom) - "
-    "the structural half of the non-negativity of the net requirement. C04.f: every definition of the curve number reaching the retention formula S = 25400/cn - 254 is a clamp to at most 100, so S >= 0 and 0 <= runoff <= rain. C04.g (structural half of Es <= EsPot): soil_evaporation's demand ledger - remaining demand + actual evaporation is invariant from its definition to the return (linear template), and every stage potential is defined as min(remaining demand, .) or as a per-sub-step fraction of it. C04.h (structural half of Tr <= TrPot): the root-extraction loop's ledger - remaining demand + actual transpiration invariant through the loop (induction), and the per-compartment sink taken off the ledger has passed the cap against the remaining demand expressed as a water content of the same compartment (later definitions only lower it). C04.i (structural half of DeepPerc >= 0): every comparison in drainage that involves a field capacity uses the adjusted field capacity of the day; the plain value appears in arithmetic only. C04.j = C03.h (the two evaporation extraction loops agree; without the clamp of negative available water the actual evaporation goes negative). C04.k: extraction amounts (added to the evaporation total and taken off the compartment's water) are non-negative on every path into the block. C04.l: the three logistic stress curves (cold stress on transpiration, heat / cold stress on pollination) are evaluated only after their argument was compared with both ends of its interval. NOT decided: the numeric inequalities themselves, non-negativity of DeepPerc / CR / GwIn / Runoff / Es "
+    "the structural half of the non-negativity of the net requirement. C04.f: every definition of the curve number reaching the retention formula S = 25400/cn - 254 is clamped to constants 0 < lo <= cn <= up <= 100, so S >= 0 is finite and 0 <= runoff <= rain. C04.g (structural half of Es <= EsPot): soil_evaporation's demand ledger - remaining demand + actual evaporation is invariant from its definition to the return (linear template), and every stage potential is defined as min(remaining demand, .) or as a per-sub-step fraction of it. C04.h (structural half of Tr <= TrPot): the root-extraction loop's ledger - remaining demand + actual transpiration invariant through the loop (induction), and the per-compartment sink taken off the ledger has passed the cap against the remaining demand expressed as a water content of the same compartment (later definitions only lower it). C04.i (structural half of DeepPerc >= 0): every comparison in drainage that involves a field capacity uses the adjusted field capacity of the day; the plain value appears in arithmetic only. C04.j = C03.h (the two evaporation extraction loops agree; without the clamp of negative available water the actual evaporation goes negative). C04.k: extraction amounts (added to the evaporation total and taken off the compartment's water) are non-negative on every path into the block. C04.l: the three logistic stress curves (cold stress on transpiration, heat / cold stress on pollination) are evaluated only after their argument was compared with both ends of its interval. NOT decided: the numeric inequalities themselves, non-negativity of DeepPerc / CR / GwIn / Runoff / Es "
     "(numeric, depend on run-time water contents).")
 
 
@@ -145,7 +145,7 @@ def run(chk, prog, tier):
 
 def rule_f(chk, prog):
     """C04.f: runoff >= 0 and <= rain needs a non-negative retention S = 25400/cn - 254, i.e. cn <= 100: every definition of the curve
-    number that reaches the retention formula is a clamp min(., c) with c <= 100 (or a constant <= 100)"""
+    number that reaches the retention formula is a min / max nest with constant bounds 0 < lower and upper <= 100 (F24, F41)"""
     from ..rdef import flow_of, ENTRY
     from ..model import walk_no_nested
     rp = prog.find_func("rainfall_partition")
@@ -166,17 +166,32 @@ def rule_f(chk, prog):
                     da = flow.cfg.nodes[dd].ast if dd != ENTRY else None
                     construct = f"{norm(da)[:70] if da is not None else cn + ' (parameter)'} reaches `{norm(a)[:40]}`"
                     v = da.value if isinstance(da, ast.Assign) else None
-                    ok = False
-                    if isinstance(v, ast.Constant) and isinstance(v.value, (int, float)) and 0 < v.value <= 100:
-                        ok = True
-                    if isinstance(v, ast.Call) and isinstance(v.func, ast.Name) and v.func.id == "min" \
-                            and any(isinstance(x, ast.Constant) and isinstance(x.value, (int, float)) and 0 < x.value <= 100 for x in v.args):
-                        ok = True
-                    if ok:
-                        chk.ok("C04.f", where, construct, "curve number limited to 100: retention S >= 0")
-                    else:
+                    def _bounds(e):
+                        """(lower, upper) constant bounds of a min / max nest over constants, None where unknown"""
+                        if isinstance(e, ast.Constant) and isinstance(e.value, (int, float)) and not isinstance(e.value, bool):
+                            return e.value, e.value
+                        if isinstance(e, ast.Call) and isinstance(e.func, ast.Name) and e.func.id in ("min", "max") and e.args:
+                            bs = [_bounds(x) for x in e.args]
+                            los = [b[0] for b in bs]
+                            ups = [b[1] for b in bs]
+                            if e.func.id == "min":
+                                lo = None if any(x is None for x in los) else min(los)
+                                up = min([x for x in ups if x is not None], default=None)
+                            else:
+                                lo = max([x for x in los if x is not None], default=None)
+                                up = None if any(x is None for x in ups) else max(ups)
+                            return lo, up
+                        return None, None
+                    lo, up = _bounds(v) if v is not None else (None, None)
+                    if up is not None and up <= 100 and lo is not None and lo > 0:
+                        chk.ok("C04.f", where, construct, f"curve number limited to [{lo}, {up}]: retention S >= 0 and finite")
+                    elif up is None or up > 100:
                         chk.violation("C04.f", where, construct, "the curve number that enters the retention S = 25400/cn - 254 is not limited to 100: a positive "
                                       "field-management adjustment makes S negative and the runoff negative or larger than the rain",
+                                      loc=rp.loc(da) if da is not None else rp.loc())
+                    else:
+                        chk.violation("C04.f", where, construct, "the curve number that enters the retention S = 25400/cn - 254 has no positive lower bound: an adjustment of "
+                                      "-100 % (or a rounded moisture-adjusted value on a dry top soil) gives 0 and the division raises ZeroDivisionError",
                                       loc=rp.loc(da) if da is not None else rp.loc())
     chk.floor("C04.f", n, 1, "retention formulas 25400 / cn")
 
